@@ -61,6 +61,19 @@ theorem scale_as_power {κ δ : Type*} [Fintype κ] [DecidableEq κ] [Fintype δ
   rw [← prod_sum_swap (fun (p : κ × Fin s) d => g p.1 d), Fintype.prod_prod_type]
   simp [Finset.prod_const, Finset.prod_pow]
 
+/-- `two_calls_eq_one` (inner-first split): the first call sums the variable local to the inner
+    plate `κ₁` and multiplies that plate out, for every index of the outer plate `κ₂` (which it sees
+    as an ordinary batch input); the second call multiplies out `κ₂` and sums the outer variable.
+    The composite is the one-shot unrolling over the plate pair `κ₂ × κ₁`. -/
+theorem two_calls_eq_one {κ₁ κ₂ δ Y : Type*} [Fintype κ₁] [DecidableEq κ₁] [Fintype κ₂] [DecidableEq κ₂]
+    [Fintype δ] [Fintype Y] (g : Y → R) (f : κ₂ → κ₁ → δ → Y → R) :
+    ∑ y, g y * ∏ k₂, (∏ k₁, ∑ d, f k₂ k₁ d y)
+      = ∑ y, ∑ X : κ₂ × κ₁ → δ, g y * ∏ p : κ₂ × κ₁, f p.1 p.2 (X p) y := by
+  refine Finset.sum_congr rfl fun y _ => ?_
+  rw [← Finset.mul_sum]
+  congr 1
+  rw [← prod_sum_swap (fun (p : κ₂ × κ₁) d => f p.1 p.2 d y), Fintype.prod_prod_type]
+
 /-! ## 2. one elimination step -/
 
 section Step
@@ -227,6 +240,13 @@ theorem sum_product_exact_partial {R : Type} [CommSemiring R] {Res E : Type} [Fi
       = ∑ X : ∀ r, (results r).Copies, ∏ r, (results r).inst () env (X r) := by
   simp_rw [Plan.nested_eq_unrolled]
   rw [Finset.prod_univ_sum, Fintype.piFinset_univ]
+
+/-- Non-vacuity of `Plan`: `Π_{k:Bool} Σ_{d:Bool} f k d` as a one-node plan over a leaf. -/
+example (f : Bool → Bool → ℕ) :
+    (Plan.node (R := ℕ) (ν := Unit) (E := Unit) Bool Bool Unit (fun p => p.2)
+        (fun _ => Plan.leaf (fun k (env : Unit × Bool) => f k env.2))).eval () ()
+      = ∏ k : Bool, ∑ d : Bool, f k d := by
+  simp [Plan.eval]
 
 /-! ## 4. where the hypotheses of the step come from: the ordinal bookkeeping -/
 
